@@ -21,10 +21,19 @@ Definition otprof_of (t : term) : option tprof :=
                  tp_samples := map (fun e => (gs (gn e 0), gz (gn e 1))) (gl (gn t 1)) |}
   end.
 
+(* compact input encoding: TL [TZ kind] = the "plain" source of its position (harness c16Plain):
+   own key f<i> (sources) / g<i> (bases) with value i+1, key "shared" with value 2^(i mod 62),
+   comment c<grp>:<i> *)
+Definition plain_prof (grp : Z) (idx : nat) : tprof :=
+  let i := Z.of_nat idx in
+  {| tp_type := "samples";
+     tp_comments := ["c" ++ string_of_Z grp ++ ":" ++ string_of_Z i];
+     tp_samples := [((if grp =? 0 then "f" else "g") ++ string_of_Z i, i + 1); ("shared", 2 ^ (i mod 62))] |}.
+
 (* outcome kinds of harness/cmd/c16.go -> answers of the fetcher / of fetch() / of CheckValid *)
-Definition source_of (idx : nat) (t : term) : source tprof :=
+Definition source_of (grp : Z) (idx : nat) (t : term) : source tprof :=
   let kind := gz (gn t 0) in
-  let p := tprof_of t in
+  let p := match gl t with [_] => plain_prof grp idx | _ => tprof_of t end in
   let valid := fun _ : tprof => if kind =? 4 then Some "invalid" else None in
   let fa := if kind =? 0 then FaProfile p ""
             else if kind =? 1 then FaProfile p "http://c16remote/x"
@@ -40,14 +49,15 @@ Definition source_of (idx : nat) (t : term) : source tprof :=
             else FtErr "http" in
   {| s_addr := string_of_Z (Z.of_nat idx); s_res := grab_profile tprof valid fa ft |}.
 
-Fixpoint sources_of (idx : nat) (l : list term) : list (source tprof) :=
+Fixpoint sources_of (grp : Z) (idx : nat) (l : list term) : list (source tprof) :=
   match l with
   | [] => []
-  | t :: r => source_of idx t :: sources_of (S idx) r
+  | t :: r => source_of grp idx t :: sources_of grp (S idx) r
   end.
 
+(* completion order: one number per finished fetch, group * 10^6 + index *)
 Definition sched_of (grp : Z) (t : term) : list nat :=
-  flat_map (fun e => if gz (gn e 0) =? grp then [Z.to_nat (gz (gn e 1))] else []) (gl t).
+  flat_map (fun e => if gz e / 1000000 =? grp then [Z.to_nat (gz e mod 1000000)] else []) (gl t).
 
 Definition status_str (s : status) : string :=
   match s with
@@ -61,8 +71,8 @@ Definition status_of (s : string) : status :=
   else if String.eqb s "no-base" then StNoBase else StPanic.
 
 Definition run_C16 (i : term) : term :=
-  let srcs := sources_of 0 (gl (gn i 0)) in
-  let bases := sources_of 0 (gl (gn i 1)) in
+  let srcs := sources_of 0 0 (gl (gn i 0)) in
+  let bases := sources_of 1 0 (gl (gn i 1)) in
   let o := grab_sources_and_bases tprof toy_combine chunk_size srcs bases (sched_of 0 (gn i 2)) (sched_of 1 (gn i 2)) in
   TL [TS (status_str (g_status o)); of_otprof (g_src o); of_otprof (g_base o); of_bool (g_save o);
       of_ss (g_err_src o); of_ss (g_err_base o); of_ss (g_tail o); TL []].
@@ -70,8 +80,8 @@ Definition run_C16 (i : term) : term :=
 Definition eqv_C16 := eqv_exact.
 
 Definition spec_C16 (i o : term) : bool :=
-  let srcs := sources_of 0 (gl (gn i 0)) in
-  let bases := sources_of 0 (gl (gn i 1)) in
+  let srcs := sources_of 0 0 (gl (gn i 0)) in
+  let bases := sources_of 1 0 (gl (gn i 1)) in
   match o with
   | TL [TS st; ps; pb; _; es; eb; _; _] =>
       (String.eqb st "ok" || String.eqb st "err-src" || String.eqb st "err-base" || String.eqb st "no-src" || String.eqb st "no-base")
